@@ -236,7 +236,7 @@ def run_property(prop, tier, seed, workdir, evid_path, t0, only):
             print('UNDECIDED: ' + u)
         rc = 2
     kill = None
-    if tier == 'thorough' and rc == 0 and not os.environ.get('VERIF_NO_MUTANTS'):
+    if tier == 'thorough' and rc == 0 and not only and not os.environ.get('VERIF_NO_MUTANTS'):
         # kill matrix (DESIGN 2.2 (e)): listed source mutations on a scratch copy; a survivor is a weakness of the contract, not a violation
         import mutants
         kill = []
